@@ -73,6 +73,12 @@ func (p *C12) Generate(seed uint64, run int) *Case {
 		b.Argv = []string{"text", "parse"}
 		c.Labels = append(c.Labels, "output-above-mebibyte")
 	}
+	if run%650 == 13 {
+		// track counts around the limits of the header and of the reader
+		pinned := [][]string{{"write", "--track", "32769"}, {"write", "--track", "65535"}, {"write", "event", "--track", "32767"}, {"write", "--track", "40000"}, {"write", "--track", "32768"}}
+		b = Base{Argv: append([]string{}, pinned[(run/650)%len(pinned)]...), Input: []byte(goodInst + "- values:\n    - \"1\"\n"), InputArg: true, Class: "doc", Tracks: 40000}
+		c.Labels = append(c.Labels, "track-count-at-the-limits")
+	}
 	if run%1300 == 7 {
 		// an input just above a round size (1 MiB, 4 MiB), most of it comments
 		b = padInput(r, b, p.w, []int{4 << 20, 1 << 20}[(run/1300)%2])
